@@ -26,8 +26,10 @@ COMMON = ["-fPIC", "-DMJ_STATIC", "-D_GNU_SOURCE", "-DmjUSEDOUBLE", "-ffp-contra
 VARIANTS = {
     "scalar": ["-O2"],
     "avx": ["-O2", "-mavx", "-DmjUSEPLATFORMSIMD"],
+    # -U__SANITIZE_ADDRESS__: include/mujoco/mjsan.h uses a clang-only attribute placement when that macro is
+    # defined; compiler ASan/UBSan instrumentation stays on, only the engine's own poisoning hooks are off
     "asan": ["-O1", "-g", "-fsanitize=address,undefined", "-fno-omit-frame-pointer",
-             "-fno-sanitize-recover=undefined"],
+             "-fno-sanitize-recover=undefined", "-U__SANITIZE_ADDRESS__"],
     "debug": ["-O0", "-g"],
 }
 
